@@ -164,6 +164,7 @@ func (e *Engine) runHarness(name string) *RunResult {
 	s.gs = []*G{g}
 	e.pushFrame(s, g, e.fnInfo(fn), nil, nil, retGo)
 	s.cur = 0
+	e.raceInit(s)
 	func() {
 		defer func() {
 			if r := recover(); r != nil {
